@@ -168,6 +168,18 @@ def oracle_linear(ck, kind, force_sym=None, zero_k=None, cover=None, absent_low=
     ok, why = same([take(o, n0, c0, lay) for o in tz2], want, tol)
     if not ok:
         ck.fail(name + ': output slice (%d,%d) depends on other slices: %s' % (n0, c0, why), replay); return 'diff'
+    if nb * c > 1:
+        # non-finite samples in the OTHER slices (a NaN / inf in one image of a batch) must stay in their slices
+        zs = [None if x is None else np.full(s, np.nan if k % 2 == 0 else np.inf) for k, (s, x) in enumerate(zip(shapes, xs))]
+        for z, x in zip(zs, xs):
+            if x is not None:
+                put(z, x, n0, c0, lay)
+        tz3 = call(zs)
+        if isinstance(tz3, tuple):
+            ck.fail(name + ': raises when other (batch, channel) slices hold NaN / inf', replay); return 'raise'
+        ok, why = same([take(o, n0, c0, lay) for o in tz3], want, tol)
+        if not ok:
+            ck.fail(name + ': output slice (%d,%d) is polluted by NaN / inf samples of OTHER slices: %s' % (n0, c0, why), replay); return 'diff'
     ck.oracle_ok((name, tuple(shapes[0])), group=kind, sample={'transform': name, 'input_shapes': [list(s) for s in shapes], 'a': a, 'b': b, 'slice': [n0, c0]})
     return None
 
